@@ -447,3 +447,31 @@ theorem serialLoop_inv {min max : Nat} : ∀ (ws : List (List ROut)) (s s' : Slo
       · exact ih _ _ (serialWrite_inv hi hv) h
 
 end TRV.Proofs
+
+namespace TRV.Proofs
+open TRV.Engine TRV.Spec
+
+/-- every accepted reply is reflected in the merge: its TTL's slot is filled by an accepted reply
+    for that TTL (the earliest, or a destination reply) -/
+theorem all_reflected (σ : List Probe) (p : Probe) (hp : p ∈ σ) :
+    ∃ q, merge σ p.ttl = some q ∧ q ∈ σ ∧ q.ttl = p.ttl ∧ (p.dest = true → q.dest = true) := by
+  rw [merge_eq_best]
+  unfold best
+  cases hfd : firstDest σ p.ttl with
+  | some q =>
+    have h1 := List.find?_some hfd
+    simp only [Bool.and_eq_true, decide_eq_true_eq] at h1
+    exact ⟨q, rfl, List.mem_of_find?_eq_some hfd, h1.1, fun _ => h1.2⟩
+  | none =>
+    have hnone := List.find?_eq_none.mp hfd p hp
+    simp only [decide_true, Bool.true_and, Bool.not_eq_true] at hnone
+    cases hfa : firstAny σ p.ttl with
+    | none =>
+      have := List.find?_eq_none.mp hfa p hp
+      simp at this
+    | some q =>
+      have h1 := List.find?_some hfa
+      simp only [decide_eq_true_eq] at h1
+      exact ⟨q, rfl, List.mem_of_find?_eq_some hfa, h1, fun h => by simp [h] at hnone⟩
+
+end TRV.Proofs
